@@ -565,6 +565,20 @@ func init() {
 			}
 			var flat []Term
 			for _, arg := range sliceElems(a[1]) {
+				// a byte array and a byte slice with the same contents print alike (%x, %s, %v of [N]byte differ only
+				// for %v; the module code formats hashes with %x)
+				if iv, ok := arg.(VIface); ok && iv.Typ != nil {
+					if arr, ok := iv.V.(VArr); ok {
+						allInt := true
+						for _, e := range arr.E {
+							_, isInt := e.(VInt)
+							allInt = allInt && isInt
+						}
+						if allInt {
+							flat = append(flat, IntC(int64(len(arr.E))))
+						}
+					}
+				}
 				if !ex.flattenVal(arg, &flat) {
 					return ex.freshAtom("fmtstr")
 				}
